@@ -19,6 +19,8 @@ if [ -n "$RACE" ]; then
 fi
 set +e
 export ICESIM_REPLAY_DIR=/verif/replays/revert-$c; rm -rf $ICESIM_REPLAY_DIR
+export ICESIM_EVIDENCE_DIR=/tmp/revert-$c.evidence
 ./bin/icesim-revert-$c check $prop $tier 2>&1 | cut -c1-500 | head -${LINES_OUT:-6}
 git -C /repo worktree remove --force $wt
+rm -rf /tmp/revert-$c.evidence
 rm -f /tmp/revert-$c.mod /tmp/revert-$c.sum bin/icesim-revert-$c bin/icesim-revert-$c-race
